@@ -68,6 +68,10 @@ LEVEL_NOTE = ('Trusted: ref/names.py capacity formulas and (A3,I2) print. Geomet
               'capacity edges are covered by the name generators, not by building each geometry.')
 
 NMAX = 20000
+CALL_LIMIT = 10          # seconds; backstop for one library call that normally takes microseconds .. milliseconds
+FILE_CYCLE_MAX_NODES = 1500      # geometries larger than this are not written to / re-read from a file
+UNIT_LIMIT = 900
+STATS = {'file_cycles': 0}         # seconds; backstop for a whole work unit
 FIX_ALPHA = 'aB019 '
 FIX_ALPHA_BIG = 'aBz0159 -.'
 EXTRA_SIZES = [(1, 12, 1), (2, 12, 1), (1, 19, 1), (2, 8, 1)]      # 26, 39, 40, 27 nodes: the 3-letter capacity edges
@@ -263,11 +267,21 @@ def check_new_key(kind, conv, j, cs, sp, nmax=NMAX):
     def add(clause, n, what):
         viol.append(('C17|%s|%s|%s,%s' % (fname, clause, sigopts, relation(n, cap)), what, n))
 
-    def one(geo, d, istart, n):
+    def one(geo, d, istart, n, guarded=False):
         """n = number of names already handed out + 1"""
         fn = geo.new_column_name if kind == 'column' else geo.new_node_name
         try:
-            name, i = fn(istart, jf, chars, sp)
+            if guarded or n >= cap - 1:
+                # new_dict_key searches 'while used': with the name space exhausted and no error raised it would
+                # search for ever - the backstop turns that into a violation
+                with core.timelimit(CALL_LIMIT):
+                    name, i = fn(istart, jf, chars, sp)
+            else:
+                name, i = fn(istart, jf, chars, sp)
+        except core.CaseTimeout:
+            add('does-not-terminate', n, '%s did not return within %d s with %d of %d names in use (%s, justify %s, chars %s)'
+                % (fname, CALL_LIMIT, n - 1, cap, opts, j, cs))
+            return None, istart
         except m.NamingConventionError:
             if n <= cap:
                 add('premature-naming-error', n, '%s raised NamingConventionError with %d of %d names in use (%s, justify %s, chars %s)'
@@ -293,8 +307,8 @@ def check_new_key(kind, conv, j, cs, sp, nmax=NMAX):
     for n in range(1, min(cap + 2, nmax) + 1):
         name, i = one(geo, d, i, n)
         evals += 1
-        if name is None:
-            break
+        if name is None or n > cap:
+            break           # exhausted: a name handed out above capacity has been reported; error states are not expanded
         d[name] = n
     # dictionaries with a hole, search from the start
     for mm in (0, 1, 2, 3, 4, 12, 13, 26, 27, 39, 40, 100, 703):
@@ -312,7 +326,7 @@ def check_new_key(kind, conv, j, cs, sp, nmax=NMAX):
             for q, nm in enumerate(full, 1):
                 if q != hole:
                     d[nm] = q
-            one(geo, d, 0, len(d) + 1)
+            one(geo, d, 0, len(d) + 1, guarded=True)
             evals += 1
     return viol, evals
 
@@ -452,7 +466,7 @@ def run_L(unit, tier, rec):
 # ---------------------------------------------------------------------------------------------------------
 # G / X: geometries
 
-def geometry_case(conv, atm, j, cs, sp, nx, ny, nz):
+def geometry_case(conv, atm, j, cs, sp, nx, ny, nz, file_cycle=None):
     """Build one rectangular geometry and check every name in it.  -> (violations [(sig, what)], outcome)."""
     m = lib()
     chars_arg, case = N.RECT_CHARSETS[cs]
@@ -460,6 +474,8 @@ def geometry_case(conv, atm, j, cs, sp, nx, ny, nz):
     ccap = N.column_capacity(conv, chars, sp)
     lcap = N.layer_capacity(conv, chars, sp)
     nn, nc = (nx + 1) * (ny + 1), nx * ny
+    if file_cycle is None:
+        file_cycle = nn <= FILE_CYCLE_MAX_NODES and nz <= FILE_CYCLE_MAX_NODES
     CL, LL = N.COLNAME_LENGTH[conv], N.LAYERNAME_LENGTH[conv]
     expect_error = nn > ccap or nz > lcap
     rel = 'above-capacity' if expect_error else ('at-capacity' if (nn == ccap or nz == lcap) else 'below-capacity')
@@ -492,35 +508,112 @@ def geometry_case(conv, atm, j, cs, sp, nx, ny, nz):
     if nn > ccap or nz > lcap:
         add('no-naming-error', 'built without error although %d node / %d layer names are needed and only %d / %d exist'
             % (nn, nz, ccap, lcap))
-    # nodes and columns
+    for c, w in member_clauses(geo, nn, nc, nz, CL, LL, lcap):
+        add(c, w)
+    if viol and any('lost' in s or 'raises' in s for s, w in viol):
+        return viol, 'geometry'
+    for c, w in block_clauses(m, geo, conv, atm, nz, True):
+        add(c, w)
+    # the same geometry constructed by reading the file the library writes for it, twice over
+    if file_cycle and not viol:
+        for c, w in file_cycle_clauses(m, geo, conv, atm, j, nn, nc, nz, CL, LL, lcap):
+            add(c, w)
+    try:
+        with quiet():
+            geo.block_order = 'dmplex'
+    except core.CaseTimeout:
+        raise
+    except Exception as e:
+        add('raises-%s' % type(e).__name__, 'block_order = %r raised %r' % ('dmplex', e))
+        return viol, 'geometry'
+    for c, w in block_clauses(m, geo, conv, atm, nz, False):
+        add(c + '-dmplex', w)
+    return viol, 'geometry'
+
+
+def member_clauses(geo, nn, nc, nz, CL, LL, lcap):
+    """Node, column and layer names of one geometry: none lost to a duplicate, distinct, of the convention's length."""
+    out = []
     for what, lst, dct, want in (('node', geo.nodelist, geo.node, nn), ('column', geo.columnlist, geo.column, nc)):
         nm = [x.name for x in lst]
         if len(nm) != want or len(dct) != want:
-            add('%s-lost' % what, '%d %ss in list, %d in dictionary, expected %d: a duplicate name was dropped'
-                % (len(nm), what, len(dct), want))
+            out.append(('%s-lost' % what, '%d %ss in list, %d in dictionary, expected %d: a duplicate name was dropped'
+                        % (len(nm), what, len(dct), want)))
         if len(set(nm)) != len(nm):
-            add('duplicate-name', 'duplicate %s names' % what)
+            out.append(('duplicate-name', 'duplicate %s names' % what))
         bad = [x for x in nm if not isinstance(x, str) or len(x) != CL]
         if bad:
-            add('name-length', '%s names not of length %d: %r' % (what, CL, bad[:3]))
+            out.append(('name-length', '%s names not of length %d: %r' % (what, CL, bad[:3])))
     for c, w in layer_clauses(geo, nz, LL, lcap):
         if c != 'no-naming-error':
-            add(c, w)
-    if viol and any('lost' in s or 'raises' in s for s, w in viol):
-        return viol, 'geometry'
-    for order in (None, 'dmplex'):
-        if order is not None:
-            try:
-                with quiet():
-                    geo.block_order = order
-            except core.CaseTimeout:
-                raise
-            except Exception as e:
-                add('raises-%s' % type(e).__name__, 'block_order = %r raised %r' % (order, e))
-                break
-        for c, w in block_clauses(m, geo, conv, atm, nz, order is None):
-            add(c + ('' if order is None else '-dmplex'), w)
-    return viol, 'geometry'
+            out.append((c, w))
+    return out
+
+
+def all_names(geo):
+    return {'node': [x.name for x in geo.nodelist], 'column': [x.name for x in geo.columnlist],
+            'layer': [x.name for x in geo.layerlist], 'block': list(geo.block_name_list)}
+
+
+def file_cycle_clauses(m, geo, conv, atm, j, nn, nc, nz, CL, LL, lcap):
+    """geo -> file -> g1 -> file -> g2 with plain mulgrid(filename): g1 is a geometry the library constructs, so all
+    name clauses hold on it; its names are those of geo (exactly when right-justified; the reader right-justifies,
+    so for a left-justified geometry up to the padding); a second cycle changes nothing."""
+    import os
+    out = []
+    path = os.path.join(core.scratch(), 'c17_geo.dat')
+
+    def cycle(g, tag):
+        try:
+            with quiet():
+                with core.timelimit(120):
+                    g.write(path)
+                    return m.mulgrid(path)
+        except core.CaseTimeout:
+            out.append(('%s-does-not-terminate' % tag, 'write + mulgrid(filename) did not finish in 120 s'))
+        except Exception as e:
+            out.append(('%s-raises-%s' % (tag, type(e).__name__), 'write + mulgrid(filename) raised %r' % (e,)))
+        return None
+
+    STATS['file_cycles'] += 1
+    g1 = cycle(geo, 'reread')
+    if g1 is None:
+        return out
+    if (g1.convention, g1.atmosphere_type) != (conv, atm):
+        out.append(('reread-header', 'file read back with convention %r, atmosphere type %r' % (g1.convention, g1.atmosphere_type)))
+        return out
+    first = [('reread-' + c, 'after write + mulgrid(filename): ' + w) for c, w in member_clauses(g1, nn, nc, nz, CL, LL, lcap)]
+    out += first
+    if any('lost' in c for c, w in first):
+        return out
+    out += [('reread-' + c, 'after write + mulgrid(filename): ' + w) for c, w in block_clauses(m, g1, conv, atm, nz, True)]
+    n0, n1 = all_names(geo), all_names(g1)
+    for kind in ('node', 'column', 'layer', 'block'):
+        a, b = n0[kind], n1[kind]
+        if j != 'l':
+            same = a == b
+        elif kind == 'block':
+            same = len(a) == len(b)      # block names of a left-justified geometry are rebuilt from re-justified parts
+        else:
+            same = len(a) == len(b) and all(isinstance(y, str) and x.strip(' ') == y.strip(' ') for x, y in zip(a, b))
+        if not same:
+            diff = [(x, y) for x, y in zip(a, b) if x != y][:3]
+            out.append(('reread-names-changed', '%s names differ after write + mulgrid(filename): %r (%d -> %d names)'
+                        % (kind, diff, len(a), len(b))))
+            break
+    if out:
+        return out
+    g2 = cycle(g1, 'second-cycle')
+    if g2 is None:
+        return out
+    n2 = all_names(g2)
+    for kind in ('node', 'column', 'layer', 'block'):
+        if n2[kind] != n1[kind]:
+            diff = [(x, y) for x, y in zip(n1[kind], n2[kind]) if x != y][:3]
+            out.append(('second-cycle-names-changed', '%s names change again in a second write/read cycle: %r (%d -> %d names)'
+                        % (kind, diff, len(n1[kind]), len(n2[kind]))))
+            break
+    return out
 
 
 def block_clauses(m, geo, conv, atm, nz, full):
@@ -602,6 +695,8 @@ def run_G(unit, tier, rec):
             rec.violation(sig, what, {'kind': 'geometry', 'conv': conv, 'atmos': atm, 'justify': j, 'chars': cs,
                                       'spaces': sp, 'nx': nx, 'ny': ny, 'nz': nz})
     rec.count('geometries', len(sizes(tier)))
+    rec.count('geometries_reread_from_file', STATS['file_cycles'])
+    STATS['file_cycles'] = 0
     if atm == 0 and j == 'l' and cs == 'lower-u' and sp:
         try:
             with quiet():
@@ -622,6 +717,8 @@ def run_X(unit, tier, rec):
         rec.violation(sig, what, {'kind': 'geometry', 'conv': conv, 'atmos': atm, 'justify': j, 'chars': cs,
                                   'spaces': sp, 'nx': nx, 'ny': ny, 'nz': nz})
     rec.count('edge_geometries', 1)
+    rec.count('geometries_reread_from_file', STATS['file_cycles'])
+    STATS['file_cycles'] = 0
     rec.count('edge_geometry_names', (nx + 1) * (ny + 1) + nx * ny * (nz + 1) + nz)
 
 
@@ -720,6 +817,11 @@ def run_F(unit, tier, rec):
 # ---------------------------------------------------------------------------------------------------------
 
 def run_unit(unit, tier, rec):
+    with core.timelimit(UNIT_LIMIT):       # a hit is reported by mc.core as a unit-timeout violation
+        _run_unit(unit, tier, rec)
+
+
+def _run_unit(unit, tier, rec):
     k = unit[0]
     if k == 'N':
         run_N(unit, tier, rec)
